@@ -96,7 +96,7 @@ func c14Run(raw []byte) (*Line, error) {
 		l.F(mn).F(mx).I(c.NBins).I(len(cs))
 	case 1:
 		mx := float64(c.Max)
-		if c.B < 2 || c.B > 16 || c.M < 1 || c.M > 8 || !fin(mx) || mx < 1 || mx > 1e30 {
+		if c.B < 2 || c.B > 16 || c.M < 1 || c.M > 8 || !fin(mx) || mx < 1 || mx > 1e60 {
 			return nil, fmt.Errorf("bad log shape")
 		}
 		var lh *stats.LogHist
@@ -146,7 +146,13 @@ func c14Run(raw []byte) (*Line, error) {
 			if c.Kind == 2 {
 				return nil, fmt.Errorf("Add on the fixed histogram")
 			}
-			if math.Abs(x) > 1e18 {
+			// linear: beyond 2^63 bin widths the int conversion of the bin index overflows (meta: assumptions);
+			// a LogHist index is m*log_b x, so values up to the widest shape (base^50 <= 1e50) and beyond are fine
+			lim := 1e18
+			if c.Kind == 1 {
+				lim = 1e60
+			}
+			if math.Abs(x) > lim {
 				return nil, fmt.Errorf("value out of the generated range")
 			}
 			u0, c0, o0 := c14Snapshot(h)
@@ -517,6 +523,60 @@ func c14Gen(tier string, rng *rand.Rand, emit func(interface{})) {
 				xs := c14LogValues(rng, b, m, mx, nb, n, edgy)
 				ops := c14AddOps(xs, rng, nb, 1)
 				ops = append(ops, c14Queries(rng, len(xs), nb, 1, len(xs) <= 40 && rng.Intn(3) == 0)...)
+				emit(c14Case{Kind: 1, B: b, M: m, Max: F64(mx), Ops: ops})
+			}
+		}
+	}
+	// (c2) WIDE log histograms: every base 2..10 x 1..4 bins per power with up to 50 bins, i.e. edges up to
+	//      base^50 (1e50 for base 10) - far beyond 2^63, where any integer arithmetic on the edges wraps.
+	//      BinToValue at EVERY bin 0..nbins (and halves / eighths near the top), values added at and around
+	//      the top edges, quantiles of samples lying there.
+	for b := 2; b <= 10; b++ {
+		for m := 1; m <= 4; m++ {
+			for variant := 0; variant < 2; variant++ {
+				K := 50 / m // whole powers: nbins = m*K <= 50
+				if thorough && variant == 1 {
+					K = 1 + rng.Intn(50/m)
+				}
+				mx := math.Pow(float64(b), float64(K))
+				if variant == 1 {
+					mx *= 0.7 // clearly inside the last power: nbins is no rounding decision
+				}
+				nb := int(math.Ceil(float64(m) * math.Log(mx) / math.Log(float64(b))))
+				if nb < 1 || nb > 50 {
+					continue
+				}
+				edge := func(k int) float64 { return math.Pow(float64(b), float64(k)/float64(m)) }
+				var xs []float64
+				// around the top edges and around every edge at a whole power of the base
+				for k := nb - 4; k <= nb+1; k++ {
+					if k < 0 {
+						continue
+					}
+					xs = append(xs, edge(k)*(1+1.0/1048576), edge(k)*(1-1.0/1048576), c14Ulps(edge(k), rng.Intn(5)-2))
+				}
+				for k := 0; k <= nb; k += m {
+					xs = append(xs, edge(k)*(1+1.0/1048576))
+					if rng.Intn(3) == 0 {
+						xs = append(xs, edge(k)*1.5)
+					}
+				}
+				xs = append(xs, c14LogValues(rng, b, m, mx, nb, 10+rng.Intn(20), rng.Intn(2) == 0)...)
+				c14Shuffle(rng, xs)
+				ops := c14AddOps(xs, rng, nb, 1)
+				ops = append(ops, c14Queries(rng, len(xs), nb, 1, len(xs) <= 40 && rng.Intn(3) == 0)...)
+				// quantiles deep in the upper tail
+				for _, q := range []float64{0.95, 0.97, 0.99, 0.995} {
+					ops = append(ops, c14Op{T: 2, X: F64(q)})
+				}
+				for i := 0; i <= nb; i++ {
+					ops = append(ops, c14Op{T: 1, X: F64(i)})
+				}
+				for i := nb - 3; i < nb; i++ {
+					if i >= 0 {
+						ops = append(ops, c14Op{T: 1, X: F64(float64(i) + 0.5)}, c14Op{T: 1, X: F64(float64(i) + float64(1+rng.Intn(7))/8)})
+					}
+				}
 				emit(c14Case{Kind: 1, B: b, M: m, Max: F64(mx), Ops: ops})
 			}
 		}
